@@ -59,10 +59,13 @@ CLAIMED["C02"] = dict(
     text="Theorems (coq/Properties/C02.v): for the comparers (anchored adapters, indels disabled) every occurrence at the anchored end within the Hamming tolerance is reported with exactly its "
     "distance, an error-free one is removed exactly, and no prefilter intervenes; for regular 5', regular 3' and 'anywhere' adapters (indels enabled or disabled), an error-free copy of the whole adapter "
     "anywhere in the read is always found by the aligner (C02_full_copy_found, C02_locate_full_copy: the DP cells on the diagonal of the copy are tracked exactly and cannot be cut off). "
-    "PARTIAL: completeness of the banded DP for occurrences with errors and for partial occurrences, non-internal adapters and anchored adapters with indels, the three cut-position "
-    "clauses, and that the k-mer prefilter lets such reads through, are not theorems; they rest on the correspondence (model match_to_prefiltered = implementation match_to for all eight classes) and on oracle_C02 "
+    "The with-indels clause is a theorem too (C02_locate_occurrence_found, C02_occurrence_found, C02_occurrence_found_rightmost; Proofs/AlignFound.v): for every adapter type that cannot skip the beginning of the adapter "
+    "(regular 3', non-internal 3', anchored 3'/5' with indels, 'rightmost' 5' on the reversed strings), indels on or off, whenever any admissible occurrence -- adapter prefix against a read segment, placed as the type allows, "
+    "at least min_overlap long, with an alignment whose cost is within the tolerance for its length -- exists, the aligner reports a match (C01's lower-bound invariant + the Ukkonen cut-off + the two acceptance points: column loop and last-column scan, "
+    "the latter also for the variant that starts at column n-m-k). "
+    "PARTIAL: the three cut-position clauses, error-free partial occurrences for the types that may skip the beginning of the adapter (full copies are covered), and that the k-mer prefilter lets such reads through (C07 proves it for whole-adapter matches) are not theorems; they rest on the correspondence (model match_to_prefiltered = implementation match_to for all eight classes) and on oracle_C02 "
     "(planted admissible occurrences verified by textbook distance, exhaustive enumeration of admissible interval quadruples in small scope, leftmost/rightmost exact-copy cut clauses) run against the implementation.",
-    technique="Coq proof (comparers; exact tracking of the diagonal of an error-free copy through the column fold of the Aligner.locate model) + extracted-model differential correspondence of prefiltered match_to; brute-force oracle search on the implementation",
+    technique="Coq proof (comparers; exact tracking of the diagonal of an error-free copy; completeness of the banded DP for occurrences with errors via the lower-bound invariant, all on the column fold of the Aligner.locate model) + extracted-model differential correspondence of prefiltered match_to; brute-force oracle search on the implementation",
     design="6/C02",
     note=TB + " thr[L] = int(L*rate) computed in CPython. Two genuine defects found by this check were repaired in /repo (fix: commits 68eb3cf, 579ddcc; see known_findings.json).",
 )
